@@ -55,6 +55,18 @@ def generate(rng, tier):
             text = rand_text(rng, md)
             offs = [rng.choice(OFFSETS) for _ in range(rng.choice([0, 1, 1, 2, 3]))]
             utc = int(rng.random() < 0.3)
+            if rng.random() < 0.12:
+                # --utc with a zoned argument whose conversion crosses midnight next to a month end, then month/year
+                # offsets: the conversion must happen before the shift (the clamped day depends on the date shifted)
+                y = rng.choice([2019, 2020, 2021, 2024, 2100])
+                mo, d = rng.choice([(1, 31), (2, 28), (2, 29), (3, 1), (3, 31), (4, 30), (5, 1), (12, 31), (1, 1), (8, 31), (10, 31)])
+                if md == "360":
+                    d = min(d, 30)
+                if (mo, d) == (2, 29) and md in ("365",) or (mo, d) == (2, 29) and md == "G" and y in (2019, 2021, 2100):
+                    d = 28
+                text = "%04d-%02d-%02dT%02d:00%s" % (y, mo, d, rng.choice([22, 23, 0, 1]), rng.choice(["-02:00", "+02:00", "-05:30", "+05:30", "+13:00", "-11:00"]))
+                offs = [rng.choice(["P1M", "-P1M", "P1Y", "-P1Y", "P1M1D", "P13M", "-P11M"]) for _ in range(rng.choice([1, 1, 2]))]
+                utc = 1
             line = "cli_shift %s %d %s %d %s" % (md, utc, enc(text), len(offs), " ".join(enc(o) for o in offs))
             cases.append(Case([line.strip()], ["shift", "mode:" + md, "offsets:%d" % len(offs), "utc:%d" % utc], fam="S", text=text))
         elif r < 0.6:
